@@ -217,6 +217,18 @@ def run(ck):
             ("arity/zero-params", "n := %d\nf := func() { if n <= 0 { return f(1) }; n -= 1; return f() }\nr := f()\n" % D, {"err": "wrong_num_args"}),
         ]
         shapes = [(t + ("" if "@" in t else "@%d" % D), s_, w) for (t, s_, w) in shapes]
+    # a self call that is the LEFT operand of || / && (or sits inside any other expression) is not in tail position: its value is used
+    T, F = {"k": "bool", "b": True}, {"k": "bool", "b": False}
+    I = lambda n: {"k": "int", "n": n}
+    for dd in (5, 40, 600):
+        shapes += [
+            ("left-of-or@%d" % dd, "any := func(n) { if n <= 0 { return false }; return any(n - 1) || n == 2 }\nr := any(%d)\n" % dd, T),
+            ("left-of-and@%d" % dd, "all := func(n) { if n <= 0 { return true }; return all(n - 1) && n != 2 }\nr := all(%d)\n" % dd, F),
+            ("left-of-or-value@%d" % dd, "f := func(n) { if n <= 0 { return false }; return f(n - 1) || n }\nr := f(%d)\n" % dd, I(1)),
+            ("left-of-and-value@%d" % dd, "f := func(n) { if n <= 0 { return true }; return f(n - 1) && n }\nr := f(%d)\n" % dd, I(dd)),
+            ("left-of-or-statement@%d" % dd, "c := 0\nf := func(n) { if n <= 0 { return false }; f(n - 1) || n == 2; c += 1 }\nf(%d)\nr := c\n" % dd, I(dd)),
+            ("cond-of-ternary@%d" % dd, "f := func(n) { if n <= 0 { return false }; return f(n - 1) ? 1 : n == 3 }\nr := f(%d)\n" % dd, I(1) if dd >= 4 else T),
+        ]
     scases = [{"id": i + 1, "src": s_, "inputs": [], "mods": [], "timeout_ms": 60000} for i, (t, s_, w) in enumerate(shapes)]
     sres = semlib.real_outcomes(ck, scases, nproc=8)
     for i, (t, s_, w) in enumerate(shapes):
